@@ -15,11 +15,14 @@ from vlib import core, flow
 HDIR = os.path.join(core.VERIF, "harness")
 HSRC = ["c04.cpp", "c04_pa.cpp", "c04_pb.cpp", "c04_pc.cpp", "c04_pd.cpp"]
 TLX_SRC = ["tlx/thread_pool.cpp", "tlx/multi_timer.cpp", "tlx/logger/core.cpp", "tlx/die/core.cpp"]
+SHIM = os.path.join(HDIR, "c04_detsched", "shim.hpp")
 VARIANTS = {
     # name -> (sanitizer flags, optimisation of the parameter translation units)
     "c04": (["-fsanitize=address,undefined", "-fno-sanitize-recover=all"], "-O0"),
     "c04nd": (["-fsanitize=address,undefined", "-fno-sanitize-recover=all", "-DNDEBUG"], "-O0"),
     "c04tsan": (["-fsanitize=thread", "-DNDEBUG"], "-O1"),
+    # the sorter under the deterministic scheduler: every translation unit force-includes the shim
+    "c04d": (["-fsanitize=address,undefined", "-fno-sanitize-recover=all"], "-O0"),
 }
 core.SAN_ENV["UBSAN_OPTIONS"] = "print_stacktrace=0:halt_on_error=1:exitcode=98"   # message must fit the kept stderr tail
 os.environ.setdefault("TSAN_OPTIONS", "halt_on_error=1:exitcode=66:second_deadlock_stack=1")
@@ -33,10 +36,12 @@ def build_c04(ctx, name="c04", sources=(), flags=(), repo_sources=(), sanitize=T
     san, opt = VARIANTS[name]
     h = hashlib.sha256()
     h.update(core.repo_hash().encode())
-    for fn in sorted(os.listdir(HDIR)):
-        if fn.startswith("c04") or fn == "common.hpp":
-            with open(os.path.join(HDIR, fn), "rb") as f:
-                h.update(fn.encode()); h.update(f.read())
+    for root, dirs, files in os.walk(HDIR):
+        dirs.sort()
+        for fn in sorted(files):
+            if (fn.startswith("c04") or fn == "common.hpp" or "c04_detsched" in root) and fn.endswith((".cpp", ".hpp")):
+                with open(os.path.join(root, fn), "rb") as f:
+                    h.update(fn.encode()); h.update(f.read())
     h.update((" ".join(san) + opt + core.CXX).encode())
     tag = h.hexdigest()[:16]
     out = os.path.join(ctx.work, f"{name}-{tag}")
@@ -58,9 +63,13 @@ def build_c04(ctx, name="c04", sources=(), flags=(), repo_sources=(), sanitize=T
     os.makedirs(odir, exist_ok=True)
     base = [core.CXX, "-std=gnu++17", "-g", "-fno-omit-frame-pointer"] + san + ["-I" + core.REPO, "-I" + HDIR]
     jobs = []
-    for s in HSRC:
-        o = opt if s != "c04_pa.cpp" else "-O1"      # default parameters run on million-string inputs
-        jobs.append((os.path.join(HDIR, s), o))
+    if name == "c04d":
+        base += ["-include", SHIM]
+        jobs.append((os.path.join(HDIR, "c04d.cpp"), opt))
+    else:
+        for s in HSRC:
+            o = opt if s != "c04_pa.cpp" else "-O1"      # default parameters run on million-string inputs
+            jobs.append((os.path.join(HDIR, s), o))
     for s in TLX_SRC:
         jobs.append((os.path.join(core.REPO, s), "-O1"))
     # biggest translation units first
@@ -240,6 +249,85 @@ def keyfn_case(rng, cid):
     return lines
 
 
+DET_PARAMS = ["t2s8i4", "t1s4i4", "t1s2i1"]
+
+
+def det_case(rng, cid):
+    """one run of the sorter under the deterministic scheduler (harness/c04d.cpp)"""
+    p = rng.choice(DET_PARAMS)
+    n = rng.choice([0, 1, 2, 3, 5, 8, 9, 12, 17, 20, 33, 40, 64])
+    strs = gen_strings(rng, n)
+    mode = rng.choice(["prng", "pct"])
+    arg = rng.choice([0, 32, 128, 230]) if mode == "prng" else rng.choice([1, 2, 3, 5])
+    lines = [f"case d{cid}", f"dcfg {p} {rng.choice([1, 2, 2, 3, 3, 4])} {rng.randrange(2)} {mode} "
+                             f"{rng.randrange(1, 10 ** 6)} {arg} {rng.choice([0, 1, 1])}"]
+    i = 0
+    while i < len(strs):
+        j = i
+        while j < len(strs) and strs[j] == strs[i]:
+            j += 1
+        lines.append(f"s {hexs(strs[i])}" + (f" {j - i}" if j - i > 1 else ""))
+        i = j
+    lines.append("dgo")
+    return lines
+
+
+def det_corpus():
+    import glob
+    cs = []
+    for p in sorted(glob.glob(os.path.join(core.VERIF, "replays", "C04", "corpus_det", "*.ops"))):
+        cs += core.split_cases([l.rstrip("\n") for l in open(p) if l.strip() and not l.startswith("#")])
+    return cs
+
+
+def det_stage(ctx, cases, spec, label="detsched"):
+    """Runs `cases` on the scheduler harness; compares order + LCP with the functional model and
+    replays every event trace through the protocol transition system (driver op `trace`).
+    Returns (stats, failures) with failures = [(case, message)]."""
+    hb, log = build_c04(ctx, name="c04d")
+    if hb is None:
+        return {"built": False}, [([], "detsched harness does not compile: " + log[-600:].replace("\n", " | "))]
+    t = time.time()
+    res = core._run_impl_cases([hb, "run"], cases, 1500)
+    fails, dlines, idx = [], [], []
+    steps = events = 0
+    for ci, (c, (answers, viols, crash)) in enumerate(zip(cases, res)):
+        for v in viols:
+            fails.append((c, v))
+        if crash is not None:
+            fails.append((c, core.crash_message(crash[0], crash[1])))
+            continue
+        a = answers[-1] if answers else ""
+        if not a.startswith("ok ") or a.count(" | ") < 3:
+            if not viols:
+                fails.append((c, "#VIOL detsched run gave no result: " + a[:120]))
+            continue
+        parts = a.split(" | ")
+        steps += int(parts[2].split("steps=")[1])
+        events += len(parts[3].split())
+        cfg = c[1].split()
+        # the same input through the functional model, then the trace through the protocol model
+        dl = ["case", f"cfg {cfg[1]} uc {cfg[2]} {cfg[3]} 1"] + [l for l in c[2:] if l.startswith("s ")] + ["go", "trace " + parts[3]]
+        dlines.append(dl)
+        idx.append((ci, parts[0] + " | " + parts[1]))
+    if dlines:
+        mout, mrc, merr = core.run_lines([core.driver_path("C04")], [l for d in dlines for l in d], timeout=1500)
+        pos = 0
+        for d, (ci, want) in zip(dlines, idx):
+            out = mout[pos:pos + len(d)]
+            pos += len(d)
+            if len(out) < len(d):
+                fails.append((cases[ci], "#VIOL model driver died: " + merr[-200:]))
+                break
+            if out[-2] != want:
+                fails.append((cases[ci], f"#VIOL result under the scheduler differs from the model: impl `{want[:80]}` model `{out[-2][:80]}`"))
+            if not out[-1].startswith("trace-ok"):
+                fails.append((cases[ci], "#VIOL event trace is not a run of the protocol model: " + out[-1][:300]))
+    ctx.say(f"stage {label}: {len(cases)} runs, {steps} scheduler steps, {events} events replayed through the protocol model, "
+            f"{len(fails)} failures ({time.time()-t:.1f}s)")
+    return {"built": True, "runs": len(cases), "scheduler_steps": steps, "events_replayed": events}, fails
+
+
 class C04(flow.Spec):
     pid = "C04"
     harness = dict(name="c04")
@@ -321,6 +409,32 @@ class C04(flow.Spec):
     # ---- thorough tier: the same cases on a TSan build and on an NDEBUG ASan build
     def extra_coverage(self, ctx, res):
         cov = {"stages": ["asan+ubsan (asserts on) vs model"]}
+        # deterministic scheduler: PRNG and PCT schedules, traces replayed through the Lean protocol model
+        rng = random.Random(ctx.seed * 7907 + 11)
+        dcases = det_corpus() + [det_case(rng, i) for i in range(120 if ctx.quick() else 4000)]
+        dstats, dfails = det_stage(ctx, dcases, self)
+        cov["detsched"] = dstats
+        cov["stages"].append("detsched: real sorter under PRNG/PCT schedules (1-4 workers), ASan, results vs model, "
+                             "event traces replayed through the protocol transition system")
+        seen = set()
+        for c, msg in dfails:
+            cls = self.viol_class(msg)
+            if cls in seen or len(seen) >= 3:
+                continue
+            seen.add(cls)
+            name = f"viol_{ctx.tier}_{ctx.seed}_detsched{len(seen)}.ops"
+            small = c
+            if c:
+                try:
+                    small = core.ddmin(c, lambda ls, cls=cls: any(self.viol_class(m) == cls
+                                                                   for _, m in det_stage(_Quiet(ctx), [ls], self)[1]),
+                                       keep_first=2, budget=60)
+                except Exception as ex:
+                    ctx.say("shrink failed:", ex)
+            p = ctx.write_replay(name, ["stage: detsched", "kind: property violated on the real code under a deterministic schedule",
+                                        "message: " + msg[:300],
+                                        f"replay: python3 check.py C04 --replay replays/C04/{name}"], small)
+            ctx.violation(p, f"property fails on the implementation (deterministic scheduler): {msg[:200]}", bool(c))
         if ctx.quick():
             return cov
         cases = [c for c in getattr(self, "_cases0", []) if any(l == "go" or l.startswith("big") for l in c)]
@@ -352,6 +466,15 @@ class C04(flow.Spec):
         return cov
 
 
+class _Quiet:
+    """a Ctx that does not talk (shrinking)"""
+    def __init__(self, ctx):
+        self.__dict__.update(ctx.__dict__)
+
+    def say(self, *a):
+        pass
+
+
 SPEC = C04()
 
 
@@ -361,6 +484,19 @@ def replay(path):
     for l in open(path):
         if l.startswith("# stage:"):
             stage = l.split(":", 1)[1].strip()
+    if stage == "detsched":
+        ctx = core.Ctx("C04", "quick", 0)
+        lines = [l.rstrip("\n") for l in open(path)]
+        for l in lines:
+            if l.startswith("#"):
+                print(l)
+        core.lean_build(ctx, ["drv_c04"])
+        cases = core.split_cases([l for l in lines if l.strip() and not l.startswith("#")])
+        stats, fails = det_stage(ctx, cases, SPEC)
+        for c, m in fails:
+            print(m)
+        print("replay: " + ("FAILS" if fails else "passes"))
+        return 1 if fails else 0
     if stage in ("tsan", "asan-ndebug"):
         ctx = core.Ctx("C04", "quick", 0)
         hb, log = build_c04(ctx, name="c04tsan" if stage == "tsan" else "c04nd")
